@@ -516,35 +516,6 @@ inline bool dot11_body_apply(Dot11& d, const std::vector<std::string>& op) {
     }
 }
 
-// the text a typed getter must return after its setter was called with the op's arguments
-inline bool wifi_expected(const std::vector<std::string>& op, std::string& name, std::string& text) {
-    if (op.empty()) return false;
-    name = op[0];
-    if (name == "edca_parameter_set" || name == "add_option" || name == "remove_option") return false;   // no getter
-    text.clear();
-    for (size_t i = 1; i < op.size(); ++i) {
-        std::string a = op[i];
-        for (size_t k = 0; k < a.size(); ++k) {
-            if (name == "rsn_information" && (i == 3 || i == 4)) { if (a[k] == ',') a[k] = '+'; }
-            else if (a[k] == ':') a[k] = '.';
-        }
-        if (i > 1) text += "_";
-        text += a;
-    }
-    return true;
-}
-inline std::string wifi_typed_find(const std::string& typed, const std::string& name) {
-    size_t pos = 0;
-    while (pos <= typed.size()) {
-        size_t end = typed.find('|', pos);
-        std::string item = typed.substr(pos, end == std::string::npos ? std::string::npos : end - pos);
-        if (item.compare(0, name.size() + 1, name + ":") == 0) return item;
-        if (end == std::string::npos) break;
-        pos = end + 1;
-    }
-    return "";
-}
-
 inline bool wifi_is_dot11(const PDU& p) {
     return p.matches_flag(PDU::DOT11);
 }
@@ -616,22 +587,11 @@ inline bool wifi_apply(PDU& p, const std::vector<std::string>& op) {
         return true;
     }
     if (Dot11ManagementFrame* m = dynamic_cast<Dot11ManagementFrame*>(&d)) {
-        // implementation-side C04 oracle: a typed setter called with a representable argument on a frame that has no
-        // such option yet must be read back by its getter as exactly that argument ("getters reflect the edits")
-        std::string name, want;
-        bool check = wifi_expected(op, name, want);
-        std::vector<uint8_t> before;
-        for (Dot11::options_type::const_iterator it = m->options().begin(); it != m->options().end(); ++it) before.push_back(it->option());
+        // the value oracle ("a typed setter called with a representable argument is read back by its getter as exactly that
+        // argument") is the clause typed-getter-returns-set-value of Driver/WireSpec.lean (typedExpectDot11), evaluated on
+        // the dump of the next `show` (live object and re-parse); an earlier C++-side copy of it threw std::runtime_error
+        // here, which made the `set` line a model/implementation difference instead of a named oracle violation
         if (!dot11_typed_apply(*m, op)) return false;
-        // "first matching option": the getter sees the new option only if no option of its code was there before
-        if (check && !m->options().empty()) {
-            uint8_t code = m->options().back().option();
-            for (size_t i = 0; i < before.size(); ++i) if (before[i] == code) check = false;
-        }
-        if (check) {
-            std::string got = wifi_typed_find(wifi_typed(*m), name);
-            if (got != name + ":" + want) throw std::runtime_error("codec-mismatch " + name + " want " + want + " got " + got);
-        }
         return true;
     }
     return false;
